@@ -115,6 +115,12 @@ def run(tier, seed):
     for c in ("impure_read", "impure_write"):
         r = vlib.tlc_model_check("MC_Packrat.tla", "MC_Packrat_%s.cfg" % c, workers=4, expect_violation=True, timeout=600)
         v.add_mc("MC_Packrat_" + c, r, "refutation: capacity-dependent result")
+    # the left-recursion guard (nom-recursive) on top of the memo: with the flags in the key the table is transparent and
+    # changes nothing of what the guarded grammar accepts; with the key of the code it is not (mechanism of known finding D15)
+    r = vlib.tlc_model_check("MC_PackratRec.tla", "MC_PackratRec_keyed.cfg", workers=4, extra=["-coverage", "1"], timeout=900)
+    v.add_mc("MC_PackratRec_keyed", r, "TransparentR, MemoFree, LeftRecursion with RecursiveInfo flags in the memo key (the repair judged too slow)")
+    r = vlib.tlc_model_check("MC_PackratRec.tla", "MC_PackratRec_refute_code.cfg", workers=4, expect_violation=True, timeout=600)
+    v.add_mc("MC_PackratRec_refute_code", r, "refutation: the memo key of the code (no flags) makes a guarded grammar capacity-dependent (D15)")
     ins = closed_input_set()
     import os
     excluded = set(json.load(open(os.path.join(vlib.ROOT, "c17_excluded.json"))))     # inputs that exceed the time limit (never evaluated)
